@@ -351,12 +351,13 @@ def run_scan(ck):
             all_known.setdefault(k, []).extend(v)
         reqs = [l for l in lines if l["kind"] == "req"]
         if name == "sweep" and res:
-            run_traceql_tie(ck, lines, res)
-            run_estimate_tie(ck, lines)
-            run_label_tie(ck, lines)
-            run_prof_tie(ck, lines)
-            run_tempo_tie(ck, lines)
-            run_prom_tie(ck, lines)
+            # the model-vs-recorded-text comparisons are independent Coq evaluations: run them side by side
+            from concurrent.futures import ThreadPoolExecutor
+            with ThreadPoolExecutor(max_workers=6) as ex:
+                futs = [ex.submit(run_traceql_tie, ck, lines, res)] + [ex.submit(f, ck, lines) for f in
+                        (run_estimate_tie, run_label_tie, run_prof_tie, run_tempo_tie, run_prom_tie)]
+                for f in futs:
+                    f.result()
         if name == "sweep":
             # every endpoint must have been exercised: a request that stops answering with SQL is a silent loss of coverage
             by_ep = {}
@@ -793,7 +794,7 @@ def run_prom_tie(ck, lines):
         fetch = " FROM time_series" in l["sql"] and "JSONExtractKeysAndValues" in l["sql"]
         sel = l.get("sel", 0)
         if not fetch:
-            lo = re.search(r"\(samples\.timestamp_ns\) >= \((\d+)\)", l["sql"])
+            lo = re.search(r"\(samples\.timestamp_ns\) >=? \((\d+)\)", l["sql"])
             hi = re.search(r"\(samples\.timestamp_ns\) (<=|<) \((\d+)\)", l["sql"])
             if not lo or not hi:
                 continue
